@@ -320,6 +320,14 @@ def exec (d : DS) (line : String) (hints : List Nat) : DS × String :=
     else
       let (d, toks, _) := pump 100000 d hints
       (d, rsSuffix d toks)
+  | some "usel" =>
+    -- the owner adds a selector of its own (any name) to the loop of its run service: the model has
+    -- one consumer of the timer queue and a selector's name is not part of it — nothing changes, the
+    -- loop goes on draining
+    let byv := (kv ws "by").getD ""
+    if !d.rs || d.svc || !(byv == "foreign" || byv == "owner") then (d, "bad-op") else
+    let (d, toks, _) := pump 100000 d hints
+    (d, "served=1 " ++ rsSuffix d toks)
   | some "rstop" =>
     let byv := (kv ws "by").getD ""
     if !d.rs || d.svc || !(byv == "foreign" || byv == "owner") || (byv == "owner" && d.blocked) then (d, "bad-op") else
@@ -451,6 +459,7 @@ structure SS where
   blocked : Bool := false  -- rs mode: the owner loop is known to be stuck, the queue may fill
   emptySince : Option Nat := none  -- the request table has been observed empty since (end of an op)
   idleTicks : Nat := 0     -- check-timer ticks since then
+  pend : Nat := 0          -- service level: size of the request table at the end of the previous op
   deriving Inhabited
 
 def SS.find (s : SS) (id : Nat) : Option TI := s.tis.find? (·.id == id)
@@ -537,6 +546,13 @@ def svcPost (s : SS) (ow : List String) : SS :=
   let s := match liveOf ow with
     | some live => { s with tis := s.tis.map fun ti => if live.contains ti.id then ti else { ti with cancelled := true } }
     | none => s
+  -- an outstanding request has its check timer (`svc_request_keeps_check_timer`)
+  let s := match kvNat ow "pend", probe ow "own" with
+    | some p, some own' =>
+      if p > 0 && own' == 0 then
+        s.flag "C14/request-without-check-timer" s!"{p} requests are outstanding but the service owns no check timer: the repeating timer it asked for was given up and nothing will time these requests out"
+      else s
+    | _, _ => s
   match liveOf ow, probe ow "own" with
   | some live, some own' =>
     let stale := live.filter fun id => id != own'
@@ -616,10 +632,20 @@ def specStep (s : SS) (line : String) : SS × String :=
           s.flag "C14/callback-inside-stop" ("timer callbacks ran from inside StandardRunService.Stop: " ++ joinWith ";" cbs)
         else s
       let s := if s.svc then svcPre s ow else s
+      -- service level, behavioural (no probe needed): the request table was not empty when this stretch of
+      -- time began, so the repeating 1 s check timer was alive and due within its period: a full period
+      -- without a single tick means the repeating timer stopped firing (nobody cancelled it: the owner
+      -- gives it up only when a tick finds the table empty)
+      let s := if s.svc && ws.head? == some "sadv" && s.pend > 0 && !s.lenient && (kvNat ws "d").getD 0 ≥ 1000 && cbs.isEmpty then
+          s.flag "C14/check-timer-stopped" s!"{s.pend} requests were outstanding at {s.now}, {(kvNat ws "d").getD 0} ms passed and the service's repeating 1 s check timer did not fire once"
+        else s
       let s := (toks ++ stray).foldl specTok s
       let s := if s.svc && (kv ow "own").isSome then svcIdle (svcPost s ow) toks ow else s
       let s := match kvNat ow "now" with
         | some t => { s with now := t }
+        | none => s
+      let s := match kvNat ow "pend" with
+        | some p => { s with pend := p }
         | none => s
       -- nothing that is due may be missing from the queue once everything is quiescent
       let s := match kvNat ow "q" with
